@@ -294,6 +294,16 @@ pub fn accepted_low_level(level: usize, mut f: impl FnMut(u64, &[u8])) -> u64 {
         f(n, &p);
         n += 1;
     }
+    // many minimal records (11 and 16 bytes each) in one section and spread over three
+    for n_recs in [12usize, 13, 14, 20, 100] {
+        for kind in 0..3 {
+            for split in 0..3 {
+                let p = many_record_packet(ManyParams { kind, n: n_recs, split, q: 1 });
+                f(n, &p);
+                n += 1;
+            }
+        }
+    }
     // names that reach exactly 253, 254 and 255 bytes only once their pointer is followed
     for l in [251usize, 252, 253] {
         let q = name_of_wire_len(l);
